@@ -493,7 +493,7 @@ func caseC17Settings(t TB, prog *Program) {
 		vshim.ReleaseAll()
 	}()
 	pendingAtSwitch := false
-	opts := RunOpts{SweepLevel: 1, SweepEveryOp: true,
+	opts := RunOpts{SweepLevel: 1, SweepEveryOp: true, Walk: true,
 		AfterOp: func(e *Env, i int, op *Op) {
 			where := fmt.Sprintf("op %d (%s)", i, op.Op)
 			switch op.Op {
